@@ -96,6 +96,45 @@ func genPersistPlan(seed uint64, thorough bool) *Plan {
 			saveNow()
 		}
 	}
+	past := func() []string {
+		// deletions through a deadline that has already passed
+		k := g.key()
+		switch g.r.IntN(6) {
+		case 0:
+			return []string{"EXPIRE", k, g.pick("-1", "0", "-100")}
+		case 1:
+			return []string{"PEXPIRE", k, g.pick("-1", "0")}
+		case 2:
+			return []string{"EXPIREAT", k, "1"}
+		case 3:
+			return []string{"PEXPIREAT", k, "1"}
+		case 4:
+			return []string{"GETEX", k, g.pick("EXAT", "PXAT"), "1"}
+		default:
+			return []string{"SET", k, "gone", g.pick("EXAT", "PXAT"), "1"}
+		}
+	}
+	if g.chance(3) {
+		// the only write since the last completed save is a single in-place
+		// change or a deletion of one kind: the shutdown save must still happen
+		saveNow()
+		switch g.r.IntN(8) {
+		case 0, 1, 2:
+			add(past()...)
+		case 3:
+			add("PERSIST", g.key())
+		case 4:
+			add(g.pick("EXPIRE", "PEXPIRE"), g.key(), "100000")
+		case 5:
+			add("LSET", g.key(), "0", g.val())
+		case 6:
+			add(g.pick("DEL", "UNLINK"), g.key())
+		default:
+			add("SREM", g.key(), g.member())
+		}
+	} else if g.chance(4) {
+		add(past()...)
+	}
 	items = append(items, Item{Op: "barrier", N: 1})
 	admin := []Item{{Op: "barrier", N: 1}}
 	if p.Class == "restart" {
